@@ -11,6 +11,7 @@ def run(ctx, rep):
     objmodel.rule_null_is_not_an_object(ctx, rep, "C08-R8")
     objmodel.rule_bind_composes(ctx, rep, "C08-R9")
     textparse.rule_canonical_index_keys(ctx, rep, "C08-R10")
+    objmodel.rule_accessor_receiver(ctx, rep, "C08-R11")
     emitrules.report(ctx, rep, {"O9": "C08-R6"}, {"C08-R6": "call/apply/bind and callback re-entry return to their own caller (sound host re-entry)"})
     rep.undecided += [
         "agreement with a reference object model over histories of operations (runtime differential)",
